@@ -25,6 +25,11 @@ def atoms(pc) -> List[Term]:
         elif k == "bool" and c[1] == "or" and not truth:
             for x in c[2]:
                 add(x, False)
+        elif k == "cmp" and c[1] in ("in", "not in") and (c[1] == "not in") == truth and isinstance(c[3], tuple) and c[3][0] in ("tuple", "list", "set") \
+                and 0 < len(c[3][1]) <= 8:
+            # x not in (a, b)  ==  x != a and x != b
+            for y in c[3][1]:
+                out.append(("cmp", "!=", c[2], y))
         elif k == "cmp":
             out.append(c if truth else ("cmp", NEG[c[1]], c[2], c[3]))
         elif k == "call" and c[1] == ("ext", "bool") and len(c[2]) == 1:
@@ -155,7 +160,7 @@ def abs_range(t: Term):
     while t[0] == "slice":
         b = slice_bounds(t)
         if b is None:
-            return None
+            break                        # a slice with a non-constant bound is the root of the constant chain
         chain.append((b[1], b[2]))
         t = strip(b[0])
     start, end = 0, 0
@@ -358,6 +363,11 @@ def simplify(t, facts):
             return simplify(t[2], fs)
         if d is False:
             return simplify(t[3], fs)
+        # undecided: each branch additionally knows the one way its side of the gate can still hold
+        def learn(truth):
+            alive = [alt for alt in alternatives(t[1], truth) if not any(_neg_atom(a) in fs for a in alt)]
+            return fs | set(alive[0]) if len(alive) == 1 else fs
+        return ("ite", simplify(t[1], fs), simplify(t[2], learn(True)), simplify(t[3], learn(False)))
     return tuple(simplify(x, fs) for x in t)
 
 
@@ -372,6 +382,11 @@ def alternatives(c: Term, truth: bool) -> List[List[Term]]:
         want = truth if c[1] in ("is", "==") else not truth
         if strip(x)[0] == "ite" or strip(x) == ("const", None) or nonnull(strip(x)):
             return _none_cases(strip(x), want)
+    if c[0] == "cmp" and c[1] in ("in", "not in") and isinstance(c[3], tuple) and c[3][0] in ("tuple", "list", "set") and 0 < len(c[3][1]) <= 8:
+        # membership in a literal container: x == a or x == b / x != a and x != b
+        if (c[1] == "in") == truth:
+            return [[("cmp", "==", c[2], y)] for y in c[3][1]]
+        return [[("cmp", "!=", c[2], y) for y in c[3][1]]]
     if c[0] == "cmp":
         return [[c if truth else ("cmp", NEG[c[1]], c[2], c[3])]]
     if c[0] == "ite" and is_const(c[2]) and is_const(c[3]) and isinstance(c[2][1], bool) and isinstance(c[3][1], bool):
